@@ -44,8 +44,21 @@ def cases(draw, max_steps=14):
             scn["ibm"]["deactivate"].append([draw(st.integers(0, max(0, nst - 1))), draw(st.sampled_from(tags))])
         scn["output"]["period"] = draw(st.sampled_from([1, 2, 3]))
         scn["coastal"] = True
+    flavour = draw(st.integers(0, 3))
+    if flavour == 0 and not scn.get("coastal"):
+        # deaths seen by a sparse record in a run whose Runge-Kutta stages leave the start cell: fast sheared
+        # flow over an uneven bottom, a record every step
+        scn["tracker"]["advection"] = draw(st.sampled_from(["RK2", "RK4"]))
+        scn["output"]["layout"] = "sparse"
+        scn["output"]["period"] = 1
+        scn["grid"]["h"] = "noise"
+        scn["forcing"]["vel"].update(kind="shear", amp=0.5, u=draw(st.sampled_from([0.6, -0.6, 0.3])),
+                                     v=draw(st.sampled_from([0.5, -0.4])))
+        scn["stage_cross"] = True
     ntag = len(scn["release"]["rows"])
     variant = draw(st.sampled_from(["drop", "add", "permute", "kill_others", "shift", "repeat", "kill_others", "drop"]))
+    if scn.get("stage_cross"):
+        variant = draw(st.sampled_from(["kill_others", "kill_others", "drop"]))
     v = dict(kind=variant)
     if variant == "drop":
         v["keep"] = draw(st.lists(st.booleans(), min_size=ntag, max_size=ntag))
@@ -128,6 +141,8 @@ def oracle(scn) -> core.CaseResult:
     res.cls(scn["output"]["layout"])
     if scn.get("coastal"):
         res.cls("coastal")
+    if scn.get("stage_cross"):
+        res.cls("stage_cross")
     s2, shift, compare = make_variant(scn)
     with e2e.workdir() as d1, e2e.workdir() as d2:
         r1, m1 = sim.run(d1, scn, record_output=False)
